@@ -799,11 +799,24 @@ namespace cds { namespace algo {
                 pPrev = m_pAllocatedHead;
                 for ( publication_record * p = pPrev->pNextAllocated.load( memory_model::memory_order_acquire ); p; ) {
                     if ( p->nState.load( memory_model::memory_order_relaxed ) == removed ) {
-                        publication_record * pNext = p->pNextAllocated.load( memory_model::memory_order_relaxed );
-                        if ( pPrev->pNextAllocated.compare_exchange_strong( p, pNext, memory_model::memory_order_acquire, atomics::memory_order_relaxed )) {
-                            free_publication_record( static_cast<publication_record_type *>( p ));
-                            p = pNext;
-                            continue;
+                        // The owner thread can exit (tls_cleanup() marks its record as removed) after the loop above
+                        // has passed over the record. Such a record is still linked to the publication list:
+                        // it must not be freed now, the next compacting unlinks and frees it
+                        bool bPublished = false;
+                        for ( publication_record * q = m_pHead; q; q = q->pNext.load( memory_model::memory_order_acquire )) {
+                            if ( q == p ) {
+                                bPublished = true;
+                                break;
+                            }
+                        }
+
+                        if ( !bPublished ) {
+                            publication_record * pNext = p->pNextAllocated.load( memory_model::memory_order_relaxed );
+                            if ( pPrev->pNextAllocated.compare_exchange_strong( p, pNext, memory_model::memory_order_acquire, atomics::memory_order_relaxed )) {
+                                free_publication_record( static_cast<publication_record_type *>( p ));
+                                p = pNext;
+                                continue;
+                            }
                         }
                     }
 
